@@ -211,7 +211,7 @@ class Contract:
     def __init__(self, qualname, params=None, cases=None, requires=None, ensures=None, raises=None,
                  result=None, loops=None, canaries=None, inline=False, hints=None, notes='',
                  modular_raises=None, properties=(), native_call=None, frame=None, local_models=None,
-                 native_oracle=None, expr_contracts=None, exc_ensures=None, skeleton=False, modular_effect=None):
+                 native_oracle=None, expr_contracts=None, exc_ensures=None, skeleton=False, modular_effect=None, arg_pins=None):
         self.qualname = qualname
         self.params = params or {}
         #: list of (label, {param: Spec}) overriding `params`; each case is explored separately
@@ -240,6 +240,8 @@ class Contract:
         self.skeleton = skeleton
         #: f(ctx, **args): ghost / typestate effect of a normal return, applied at call sites (modular use)
         self.modular_effect = modular_effect
+        #: (callee name, positional index) -> dict(source, value=f(interp, frame), doc): assumed contract on one argument expression
+        self.arg_pins = arg_pins or {}
         #: local name -> factory of a typed model for `name = []` (an empty list literal carries no element type)
         self.local_models = local_models or {}
 
@@ -281,6 +283,7 @@ class Contract:
                 continue
             if ctx.branch(c):
                 raise PyRaise(exc, f'contract of {self.qualname}')
+        ctx.ghost.setdefault('calls', []).append((self.qualname, dict(env)))
         if self.modular_effect is not None:
             self.modular_effect(ctx, **env)
         if self.result is None:
@@ -292,10 +295,16 @@ class Contract:
         if self.ensures is not None and not self.skeleton:
             # (typestate contracts state their postconditions over the ghost versions since *their own* entry; at a call site
             #  their effect is applied by modular_effect instead)
-            for f in _as_dict(self.call(self.ensures, view, tys, raw(res))).values():
+            for cname_, f in _as_dict(self.call(self.ensures, view, tys, raw(res))).items():
                 # a Sequent's local hypotheses are definitional reveals used by the callee's own proof: the caller
                 # only learns the (opaque) conclusion
-                ctx.assume(f.goal if isinstance(f, smt.Sequent) else f)
+                f = f.goal if isinstance(f, smt.Sequent) else f
+                if f is False:
+                    # a postcondition that is literally False at a call site would make everything after the call vacuous:
+                    # the clause depends on ghosts of the callee's own execution and must not be used modularly
+                    from .values import HardUnsupported
+                    raise HardUnsupported(f'postcondition {self.qualname}::{cname_} is not usable at call sites (evaluates to False)')
+                ctx.assume(f)
         if self.hints is not None:
             ctx.hint(*self.call(self.hints, view, tys, raw(res)))
         return res
